@@ -622,6 +622,7 @@ func minimize(sig string, cs []byte) []byte {
 		}
 		return false
 	}
+	fails = ev.Bounded(fails)
 	if !fails(c.Pre) {
 		return nil
 	}
